@@ -61,7 +61,7 @@ def warm_quick():
   runs.append(('LinenSetup', 'LinenSetup_f14.cfg', dict(workers=16, coverage=False, timeout=900)))
   for pid, n in ((1, 90), (2, 90), (9, 90), (5, 170)):
     runs.append(('LinenSetup', 'LinenSetup_sim.cfg', dict(workers=1, simulate=n, depth=20, seed=11 + pid, timeout=3000)))
-  for cf in ('Traverse_tree.cfg', 'Traverse_tree_emptykey.cfg', 'Traverse_state.cfg', 'Traverse_state3.cfg'):
+  for cf in ('Traverse_tree.cfg', 'Traverse_tree_emptykey.cfg', 'Traverse_state.cfg', 'Traverse_state3.cfg', 'Traverse_split.cfg'):
     runs.append(('Traverse', cf, dict(workers=1, timeout=1800)))
   runs.append(('StateDict', 'StateDict_restore.cfg', dict(workers=1, timeout=3000)))
   runs.append(('StateDict', 'StateDict_chunk.cfg', dict(workers=1, timeout=900)))
